@@ -244,6 +244,14 @@ theorem info_roundtrip_compiled (dflt k : Kind) (kw : Dict) (a c : Atom) (data :
     ∃ a', atomFromInfo dflt c.info = .ok a' ∧ compileAtom data a' = .ok c :=
   rebuild_compiled dflt k kw a c data h hc
 
+/-- the same for tensor terms over constructed marginals (with their by-variable) -/
+theorem info_roundtrip_tensor_compiled (args : List TeArg) (by_ : Val) (kw : List (String × Tree)) (d : Dict)
+    (ms : List Atom) (data : List FeatData) (c : Term)
+    (h : mkTensor args by_ (vbool false) kw = .ok (.tensor d ms)) (hm : ∀ m ∈ ms, Constructed m)
+    (hc : compileTerm data (.tensor d ms) = .ok c) :
+    ∃ t', Term.fromInfo c.info = .ok t' ∧ compileTerm data t' = .ok c :=
+  tensor_rebuild_compiled args by_ kw d ms data c h hm hc
+
 /-- non-vacuity: a spline term with custom edge knots, two penalties and a by-variable, and a tensor term with a
 by-variable, survive `build_from_info(info)` (the two repaired defects of D7) -/
 example :
